@@ -84,6 +84,23 @@ def scenarios():
         return dict(pt=pt, solver=Solver(pt), motor=m, last=out, load=load,
                     schedule=[(TimeInterval(5, "ms"), TimeInterval(200, "ms"), {})])
 
+    def wheel_drives_worm():
+        # the inverse worm orientation: the worm WHEEL is the master of the mating (ratio n_starts / n_teeth, not self-locking)
+        m = motor()
+        wh = WormWheel("wheel", 20, InertiaMoment(50, "gcm^2"), Angle(10, "deg"), Angle(20, "deg"))
+        w = WormGear("worm", 1, InertiaMoment(10, "gcm^2"), Angle(10, "deg"), Angle(20, "deg"))
+        g = SpurGear("gear", 30, InertiaMoment(30, "gcm^2"))
+        add_fixed_joint(m, wh)
+        add_worm_gear_mating(wh, w, 0.05)
+        add_fixed_joint(w, g)
+        load = Recorder(lambda time, angular_position, angular_speed: Torque(0.05 + 0.0001 * angular_speed.to("rad/s").value, "mNm"))
+        g.external_torque = load
+        g.angular_position = AngularPosition(0, "rad")
+        g.angular_speed = AngularSpeed(2, "rad/s")
+        pt = Powertrain(m)
+        return dict(pt=pt, solver=Solver(pt), motor=m, last=g, load=load,
+                    schedule=[(TimeInterval(1, "ms"), TimeInterval(50, "ms"), {}), (TimeInterval(0.002, "sec"), TimeInterval(0.04, "sec"), {})])
+
     def helical_train():
         m = motor(False)
         h1 = HelicalGear("h1", 15, InertiaMoment(10, "gcm^2"), Angle(20, "deg"), Length(1, "mm"), Length(5, "mm"), Stress(200, "GPa"))
@@ -145,6 +162,7 @@ def scenarios():
         ("spur-train(rpm start, mixed inertia units, continuation in sec after ms)", spur_train),
         ("helical+spur-train(no current data, position-dependent load, continuation in ms after sec)", helical_train),
         ("spur train with an idler gear (slave of one mating, master of the next)", idler_train),
+        ("worm wheel drives the worm (inverse orientation), continuation in sec after ms", wheel_drives_worm),
         ("self-locking worm, load jump locks mid-run", lambda: worm_train(
             lambda time, angular_position, angular_speed: T(10 + 2 * angular_speed.to("rad/s").value if time.to("sec").value < 0.2
                                                             else 5000 + 30 * angular_speed.to("rad/s").value, "mNm"))),
